@@ -192,10 +192,6 @@ func (interp *Interpreter) Execute(p *Program) (res reflect.Value, err error) {
 
 // ExecuteWithContext executes compiled Go code.
 func (interp *Interpreter) ExecuteWithContext(ctx context.Context, p *Program) (res reflect.Value, err error) {
-	interp.mutex.Lock()
-	interp.done = make(chan struct{})
-	interp.mutex.Unlock()
-
 	done := make(chan struct{})
 	go func() {
 		defer close(done)
